@@ -13,6 +13,11 @@
           | (neg <ncmd>)                         -- `! …`
           | (ao <ncmd> (<isAnd 0|1> <ncmd>)…)    -- and-or list
           | (call <ncmd>…)                       -- a function whose body is `{ …; }`
+          | (pipe <ncmd>…)                       -- `c1 | c2 | …`
+          | (for <words fail 0|1> <read-only variable 0|1> <n> <ncmd>…)
+          | (case <subject fails 0|1> (<matches 0|1> <pattern fails 0|1> <b|f|c> <ncmd>…)…)
+          | (async <ncmd>…)                      -- `{ …; } & wait`
+  The EXIT action is `0` (none), `1` (`probe 99`) or `(A <line>…)` (a script of its own).
   The seed only drives the harness's surface rendering.
 
   Output: the observation of the `sc` family, and in the Spec column, when the FIRST command the script executes
@@ -53,6 +58,18 @@ mutual
       let r ← toAoRest rest
       pure (.andor f r)
     | .list (.atom "call" :: body) => (toNCmds body).map .call
+    | .list (.atom "pipe" :: body) => (toNCmds body).map .pipe
+    | .list (.atom "for" :: w :: ro :: n :: body) => do
+      let w ← w.nat?
+      let ro ← ro.nat?
+      let n ← n.nat?
+      let b ← toNCmds body
+      pure (.forLoop (w != 0) (ro != 0) n b)
+    | .list (.atom "case" :: se :: items) => do
+      let se ← se.nat?
+      let items ← toCaseItems items
+      pure (.caseC (se != 0) items)
+    | .list (.atom "async" :: body) => (toNCmds body).map .async
     | x => (toSimple x).map .simple
 
   partial def toNCmds : List Sx → Option (List NCmd)
@@ -61,6 +78,18 @@ mutual
       let a ← toNCmd x
       let b ← toNCmds rest
       pure (a :: b)
+
+  partial def toCaseItems : List Sx → Option (List (Bool × Bool × List NCmd × CaseCont))
+    | [] => some []
+    | .list (m :: e :: .atom k :: body) :: rest => do
+      let m ← m.nat?
+      let e ← e.nat?
+      let k ← match k with
+        | "b" => some CaseCont.break_ | "f" => some .fallThrough | "c" => some .continue_ | _ => none
+      let b ← toNCmds body
+      let r ← toCaseItems rest
+      pure ((m != 0, e != 0, b, k) :: r)
+    | _ => none
 
   partial def toAoRest : List Sx → Option (List (Bool × NCmd))
     | [] => some []
@@ -89,6 +118,8 @@ partial def firstLeaf : NCmd → Bool → Option (Simple × Bool)
   | .neg n, _ => firstLeaf n true
   | .andor n [], ex => firstLeaf n ex
   | .andor n (_ :: _), _ => firstLeaf n true
+  | .forLoop false false (_ + 1) (n :: _), ex => firstLeaf n ex
+  | .caseC false ((true, false, n :: _, _) :: _), ex => firstLeaf n ex
   | _, _ => none
 
 /-- what the theorems of NestedTheorems.lean predict for the first command: the status the shell ends with -/
@@ -117,12 +148,16 @@ def specVerdictN (errexit : Bool) (script : List NLine) (o : ScOutcome) (probes 
         else "ok"
   | _ => "-"
 
-def parseArgsN : List Sx → Option (Bool × Bool × List NLine)
+def parseArgsN : List Sx → Option (Bool × Option (List NLine) × List NLine)
   | .list [e, t] :: lines => do
     let e ← e.nat?
-    let t ← t.nat?
+    let t ← match t with
+      | .atom "0" => some none
+      | .atom "1" => some (some [NLine.cmds [.simple (probeSimple 99)]])
+      | .list (.atom "A" :: ls) => (ls.mapM toNLine).map some
+      | _ => none
     let ls ← lines.mapM toNLine
-    pure (e != 0, t != 0, ls)
+    pure (e != 0, t, ls)
   | _ => none
 
 def runNc (line : String) : String :=
@@ -136,8 +171,8 @@ def runNc (line : String) : String :=
       | some (e, t, ls) =>
         let s0 : St := { errexit := e }
         let o := runShellN 1000 s0 t ls
-        -- what the script itself traced (the EXIT action's marker is 99)
-        let probes := o.final.trace.filter (fun p => p.1 != 99)
+        -- what the script itself traced, before the EXIT action
+        let probes := (readEvalLoopN 1000 s0 true ls).1.trace
         showSc o ++ "\t" ++ specVerdictN e ls o probes
   | _ => "bad-case\t-"
 
